@@ -63,9 +63,9 @@ def main():
     patches = args.patches or sorted(glob.glob(os.path.join(ROOT, "mutants", "*.patch")))
     bad = 0
     for patch in patches:
-        pids = args.checks.split(",") if args.checks else owners(patch)
-        if args.only and args.only not in pids:
+        if args.only and args.only not in owners(patch):
             continue
+        pids = args.checks.split(",") if args.checks else owners(patch)
         d = make_copy()
         try:
             ap_ = subprocess.run(["patch", "-p1", "-s", "-d", d, "-i", os.path.abspath(patch)],
